@@ -302,3 +302,19 @@ func (c *ShipConnection) getHandshakeTimerType() timeoutTimerType {
 
 	return c.handshakeTimerType
 }
+
+// the last received waiting value is written while processing a message
+// and read when a handshake timer fires, which are different go routines
+func (c *ShipConnection) setLastReceivedWaitingValue(value time.Duration) {
+	c.handshakeTimerMux.Lock()
+	defer c.handshakeTimerMux.Unlock()
+
+	c.lastReceivedWaitingValue = value
+}
+
+func (c *ShipConnection) getLastReceivedWaitingValue() time.Duration {
+	c.handshakeTimerMux.Lock()
+	defer c.handshakeTimerMux.Unlock()
+
+	return c.lastReceivedWaitingValue
+}
